@@ -13,7 +13,7 @@
    are pairwise distinct. *)
 From Coq Require Import List ZArith NArith Bool Permutation.
 Import ListNotations.
-From SygmaV Require Import Model.C16 Proofs.C16 Proofs.C16_Exec.
+From SygmaV Require Import Model.C16 Proofs.C16 Proofs.C16_Exec Proofs.C16_Seq.
 Local Open Scope Z_scope.
 
 (* One output per proposal, in order, paying exactly its amount to (the script of) its recipient. *)
@@ -189,6 +189,38 @@ Theorem C16_exec_ok_sound : forall ps obs,
 Proof. exact exec_ok_sound. Qed.
 Print Assumptions C16_exec_ok_sound.
 
+(* ---- round 4: histories of builds on ONE long-lived Executor ----
+   rawTx is a function of (proposals, UTXO listing, CURRENT fee rate, ...) whatever was built - or
+   failed to build - before on the same Executor: the build after any history is the build alone. *)
+Theorem C16_build_history_independent : forall bridge pre b post,
+  nth_error (build_run bridge (pre ++ b :: post)) (length pre) = Some (build_one bridge b).
+Proof. exact build_history_independent. Qed.
+Print Assumptions C16_build_history_independent.
+
+Theorem C16_build_same_inputs : forall bridge pre pre' b post post',
+  nth_error (build_run bridge (pre ++ b :: post)) (length pre)
+  = nth_error (build_run bridge (pre' ++ b :: post')) (length pre').
+Proof. exact build_same_inputs. Qed.
+Print Assumptions C16_build_same_inputs.
+
+(* the history judge (per build: the per-build judge [spec_all] on the long-lived Executor's run and a
+   fresh Executor's run, UTXO set and quote of THAT build) accepts the model on every history of
+   well-formed builds, failing ones included ... *)
+Theorem C16_seq_spec_model : forall bridge bs,
+  forallb build_wf bs = true -> seq_spec bridge (model_build_obs bridge bs) = true.
+Proof. exact seq_spec_model. Qed.
+Print Assumptions C16_seq_spec_model.
+
+(* ... and what it accepts: every run of every build obeys the per-build specification
+   (C16_tx_ok_sound / C16_tx_ok_covers apply to it), and the long-lived Executor produced exactly
+   what a fresh one produces from the same inputs *)
+Theorem C16_seq_spec_sound : forall bridge obs, seq_spec bridge obs = true ->
+  forall ps us rs, In (ps, us, rs) obs ->
+    Forall (fun r => spec_one ps us bridge r = true) rs /\
+    (forall r0 rest, rs = r0 :: rest -> Forall (fun r => res_eqb r0 r = true) rest).
+Proof. exact seq_spec_sound. Qed.
+Print Assumptions C16_seq_spec_sound.
+
 (* The code as found (sufficiency test without the fee; ties of (time, txid) left in listing order)
    violates conservation / non-negativity and order independence. *)
 Theorem C16_old_conservation_refuted :
@@ -233,4 +265,23 @@ Example C16_nonvacuous_exec :
   map handler_amount [two64 - 1; two64; two64 + ten10; 21000000 * 100000000 * ten10]
     = [1844674407; 1844674407; 1844674408; 2100000000000000] /\
   amounts_ok [two64 + ten10] [1] = false.
+Proof. vm_compute. repeat split. Qed.
+
+(* Non-vacuity of the round-4 theorems: a history (a build the bridge cannot fund at rate 3, then a
+   fundable one at rate 100) is well formed, its second build yields a transaction with the quote at
+   rate 100; the same transaction built with the stale rate 3 is rejected by the history judge. *)
+Example C16_nonvacuous_seq :
+  let pays := [(1000, script_of P2WPKH (repeat 1%N 20)); (2500, script_of P2TR (repeat 2%N 32));
+               (0, [106; 6; 115; 121; 103; 95; 81; 109]%N)] in
+  let us1 := [mkUtxo w_id 0 4909 1700000000] in
+  let us2 := [mkUtxo w_id 0 400000 1700000000; mkUtxo w_id 1 900000 1700000000] in
+  let b1 := mkBuild ex_props us1 3 [81; 109]%N true true in
+  let b2 := mkBuild ex_props us2 100 [81; 109]%N true true in
+  let good : run_res := Some ([(w_id, 0)], pays ++ [(400000 - 29610 - 3500, w_bridge)], 29610) in
+  let stale : run_res := Some ([(w_id, 0)], pays ++ [(400000 - 1410 - 3500, w_bridge)], 29610) in
+  forallb build_wf [b1; b2] = true /\
+  map snd (model_build_obs w_bridge [b1; b2]) = [[None; None]; [good; good]] /\
+  seq_spec w_bridge (model_build_obs w_bridge [b1; b2]) = true /\
+  seq_spec w_bridge [(ex_props, us1, [None; None]); (ex_props, us2, [stale; good])] = false /\
+  seq_spec w_bridge [(ex_props, us2, [stale; stale])] = false.
 Proof. vm_compute. repeat split. Qed.
